@@ -79,6 +79,7 @@ type Interp struct {
 	trace        bool
 	foreignErr   map[*ssa.Global]bool
 	looseEq      bool
+	reverse      bool
 	known        map[*Term]bool
 	lb, ub       map[*Term]int64
 	axDone       map[int]bool
@@ -226,6 +227,9 @@ func (in *Interp) fork(kind string, alts []*Term) int {
 		in.addPC(alts[i])
 		return i
 	}
+	if os.Getenv("GOSX_FORKLOG") != "" {
+		fmt.Fprintf(os.Stderr, "FORK %s at %s\n", kind, in.stack())
+	}
 	var feas []int
 	for i, a := range alts {
 		if a.IsConst() && !a.BoolVal() {
@@ -262,6 +266,9 @@ func (in *Interp) fork(kind string, alts []*Term) int {
 func (in *Interp) choice(n int) int {
 	if n <= 1 {
 		return 0
+	}
+	if os.Getenv("GOSX_FORKLOG") != "" && len(in.taken) >= len(in.prefix) {
+		fmt.Fprintf(os.Stderr, "CHOICE n=%d at %s\n", n, in.stack())
 	}
 	pos := len(in.taken)
 	if pos < len(in.prefix) {
@@ -1373,6 +1380,11 @@ func (in *Interp) rangeIter(v Value) Value {
 		it := &iterV{m: x}
 		if x != nil {
 			it.keys = x.orderedEntries()
+			if in.reverse {
+				for i, j := 0, len(it.keys)-1; i < j; i, j = i+1, j-1 {
+					it.keys[i], it.keys[j] = it.keys[j], it.keys[i]
+				}
+			}
 		}
 		return it
 	case *Term:
